@@ -88,6 +88,24 @@ def main():
             last.append({"raised": repr(e)})
     out["first"] = ref
     out["last"] = last
+    # ... and "mixed" line-ups: a team the model saw at the very start next to teams it has never seen, in ONE call (all three predictions)
+    mixed = []
+    beta = cfg["beta"]
+    seen_teams = []
+    for j in rec:
+        if j["teams"][0] not in seen_teams:
+            seen_teams.append(j["teams"][0])
+    for old in seen_teams[:8]:
+        fresh = [[[beta * rng.uniform(-3.0, 9.0), beta * 10.0 ** rng.uniform(-1.5, 0.5)] for _ in range(rng.choice([1, 2]))] for _ in range(rng.choice([2, 3]))]
+        teams = [fresh[0], old] + fresh[1:]
+        res = {}
+        for op in ("predict_rank", "predict_draw", "predict_win"):
+            try:
+                res[op] = run_job(model, {"op": op, "teams": teams})
+            except Exception as e:  # noqa: BLE001
+                res[op] = {"raised": repr(e)}
+        mixed.append({"teams": teams, "results": res})
+    out["mixed"] = mixed
     json.dump(out, sys.stdout)
 
 
